@@ -177,7 +177,7 @@ func sig(r *vrt.Result, msg string) string {
 
 func scen(p Params) run.Scenario {
 	return run.Scenario{Name: p.Name(), Body: body(p), Check: check(p), Sig: sig, Summary: summary,
-		Opts: vrt.Options{PreemptBound: p.Preempt, FaultBound: -1, OrderBound: -1, Prune: true}}
+		Opts: vrt.Options{PreemptBound: p.Preempt, FaultBound: -1, OrderBound: -1, Prune: true, Race: true}}
 }
 
 // scripts enumerates writer scripts failing at call 1..maxCall (Send1, Flush1, Send2, ...), with and without cancellation.
